@@ -1,0 +1,36 @@
+//go:build verif
+
+package registry
+
+// Accessors for the verification harness (built only with -tags verif).
+
+// VerifLen is the number of values held.
+func (r *Registry[E]) VerifLen() int { return len(r.values) }
+
+// VerifKeys is a copy of the key table (key -> id).
+func (r *Registry[E]) VerifKeys() map[string]int32 {
+	m := make(map[string]int32, len(r.keys))
+	for k, v := range r.keys {
+		m[k] = v
+	}
+	return m
+}
+
+// VerifTags is the tag table with every bound value replaced by its id (-1: not a value of this registry).
+func (r *Registry[E]) VerifTags() map[string][]int32 {
+	m := make(map[string][]int32, len(r.tags))
+	for tag, ps := range r.tags {
+		ids := make([]int32, len(ps))
+		for i, p := range ps {
+			ids[i] = -1
+			for j := range r.values {
+				if p == &r.values[j] {
+					ids[i] = int32(j)
+					break
+				}
+			}
+		}
+		m[tag] = ids
+	}
+	return m
+}
